@@ -240,3 +240,46 @@ func (ft *FuncTr) abstractCall(st *State, at *Term, sig *types.Signature, fn *ss
 	}
 	return ft.absVal(res, "abs"), nil
 }
+
+// checkBinds: `binds T.field to M` - a store to that field must store the bound method value M.
+func (ft *FuncTr) checkBinds(at *Term, x *ssa.Store) {
+	if len(ft.c.Binds) == 0 {
+		return
+	}
+	fa, ok := x.Addr.(*ssa.FieldAddr)
+	if !ok {
+		return
+	}
+	sty := derefType(fa.X.Type())
+	nt, ok := sty.(*types.Named)
+	if !ok {
+		return
+	}
+	fname := nt.Obj().Name() + "." + nt.Underlying().(*types.Struct).Field(fa.Field).Name()
+	for i, b := range ft.c.Binds {
+		parts := strings.Split(b.Field, ".")
+		if len(parts) < 2 || parts[len(parts)-2]+"."+parts[len(parts)-1] != fname {
+			continue
+		}
+		if ft.bindHit == nil {
+			ft.bindHit = map[int]bool{}
+		}
+		ft.bindHit[i] = true
+		good := false
+		got := x.Val.String()
+		if mc, ok := x.Val.(*ssa.MakeClosure); ok {
+			if f, ok := mc.Fn.(*ssa.Function); ok {
+				got = f.String()
+				// a method value is the synthetic wrapper "<method>$bound"
+				if strings.HasSuffix(f.String(), b.Method+"$bound") || strings.HasSuffix(strings.ReplaceAll(f.String(), "go.universe.tf/metallb/", ""), b.Method+"$bound") {
+					good = true
+				}
+			}
+		}
+		goal := TTrue
+		if !good {
+			goal = TFalse
+		}
+		ft.assert(at, goal, "binds", fname, "the value stored in "+b.Field+" is the method value "+b.Method+" (found "+got+")", x.Pos())
+	}
+}
